@@ -517,6 +517,10 @@ int SimulateMsp430::put_data(
     return 0;
   }
 
+  // A destination without an effective address (the constant generator
+  // as x(R3)) has nowhere to store to.
+  if (ea == -1) { return 0; }
+
   if (bw == BW_WORD)
   {
     ram_write16(ea, data);
